@@ -1,5 +1,111 @@
-"""Thorough tier: the checker is tested both ways on scratch copies (filled in below)."""
+"""Thorough tier: the checker is tested both ways (DESIGN.md section 7).
+
+Every corpus entry is a textual patch (file, old -> new) applied to a scratch
+copy of the *current* /repo/bisturi (under a temporary directory outside /repo
+and /verif, removed at exit).  Only the static checker runs on the variants; no
+variant is executed.
+
+* seeded  -- a realistic change that breaks the property while still compiling
+             and passing the 40 pinned tests: the check must exit 1 and (when
+             the entry names one) report the expected rule;
+* benign  -- a behaviour-preserving refactor: the check must stay silent (exit 0).
+
+A seeded variant that is not caught, or a benign one that is flagged, is a defect
+of the checker: ANALYSIS-ERROR, exit 2 -- never a VIOLATION of the property.
+Patches that no longer apply to an edited tree are skipped and reported.
+"""
+import io
+import os
+import shutil
+import sys
+import tempfile
+
+from .corpus import CORPUS
+
+REPO = os.environ.get('BISTAT_REPO', '/repo')
 
 
-def run_selftest(prop, seed):
-    return 0
+def apply_entry(entry, root):
+    """returns None if applied, else the reason it was skipped"""
+    edits = entry.get('edits') or [(entry['file'], entry['old'], entry['new'])]
+    for file, old, new in edits:
+        path = os.path.join(root, file)
+        if not os.path.exists(path):
+            return 'file %s missing' % file
+        with open(path) as f:
+            src = f.read()
+        if src.count(old) != 1:
+            return 'anchor text occurs %d times in %s' % (src.count(old), file)
+        with open(path, 'w') as f:
+            f.write(src.replace(old, new))
+    return None
+
+
+def run_entry(entry, seed=0):
+    from .__main__ import run_property
+    tmp = tempfile.mkdtemp(prefix='bistat.')
+    try:
+        shutil.copytree(os.path.join(REPO, 'bisturi'), os.path.join(tmp, 'bisturi'),
+                        ignore=shutil.ignore_patterns('__pycache__', '__pkts__'))
+        why = apply_entry(entry, tmp)
+        if why:
+            return 'skipped', why, ''
+        # the variant must still compile
+        for fn in os.listdir(os.path.join(tmp, 'bisturi')):
+            if fn.endswith('.py'):
+                with open(os.path.join(tmp, 'bisturi', fn)) as f:
+                    try:
+                        compile(f.read(), fn, 'exec')
+                    except SyntaxError as e:
+                        return 'broken', 'variant does not compile: %s' % e, ''
+        buf = io.StringIO()
+        code = run_property(entry['property'], 'quick', seed, root=tmp, write=False, out=buf)
+        text = buf.getvalue()
+        if entry['kind'] == 'seeded':
+            if code != 1:
+                return 'missed', 'exit %d, expected a VIOLATION' % code, text
+            rule = entry.get('rule')
+            if rule and ('rule=%s' % rule) not in text:
+                return 'misattributed', 'violation reported, but not by rule %s' % rule, text
+            return 'caught', '', text
+        else:
+            if code != 0:
+                return 'flagged', 'exit %d on a behaviour-preserving variant' % code, text
+            return 'silent', '', text
+    finally:
+        shutil.rmtree(tmp, ignore_errors=True)
+
+
+def run_selftest(prop, seed=0, out=sys.stdout, verbose=False):
+    entries = [e for e in CORPUS if e['property'] == prop]
+    bad = 0
+    counts = {}
+    for e in entries:
+        res, why, text = run_entry(e, seed)
+        counts[res] = counts.get(res, 0) + 1
+        good = res in ('caught', 'silent', 'skipped')
+        if not good:
+            bad += 1
+            print('ANALYSIS-ERROR property=%s self-test %s [%s] %s: %s' % (prop, e['id'], e['kind'], res, why), file=out)
+            if verbose:
+                print(text, file=out)
+        elif res == 'skipped':
+            print('   self-test %s skipped: %s' % (e['id'], why), file=out)
+        elif verbose:
+            print('   self-test %-40s %s' % (e['id'], res), file=out)
+    print('   self-test corpus for %s: %s' % (prop, ', '.join('%s=%d' % kv for kv in sorted(counts.items())) or 'empty'), file=out)
+    return 2 if bad else 0
+
+
+def main(argv):
+    props = argv[1:] or sorted({e['property'] for e in CORPUS})
+    if props == ['all']:
+        props = sorted({e['property'] for e in CORPUS})
+    worst = 0
+    for p in props:
+        worst = max(worst, run_selftest(p, verbose='-v' in argv or True))
+    return worst
+
+
+if __name__ == '__main__':
+    sys.exit(main([a for a in sys.argv if a != '-v']))
